@@ -55,3 +55,22 @@ Example C13_nonvacuous :
   explain [] [(Receive 1, OFailed); (Enum, OList [1]); (Stat 1, OPresent false)]%N = false.
 Proof. repeat split; reflexivity. Qed.
 Print Assumptions C13_nonvacuous.
+
+(* encrypt: the source regenerated today records the meta blob before it sets the index row; then, for every sequence of
+   uploads and every choice of failing write, every acknowledged upload is served and survives the meta re-scan *)
+Theorem C13_encrypt_source_order : enc_meta_before_index = true.
+Proof. reflexivity. Qed.
+Print Assumptions C13_encrypt_source_order.
+
+Theorem C13_encrypt_acked_survive_rebuild : forall l s, incl (e_index s) (e_metas s) ->
+  let '(s', acks) := enc_run enc_meta_before_index s l in
+  incl (e_index s') (e_metas s') /\ (forall x, In x (e_index s) -> In x (e_index s')) /\
+  forall r, In r acks -> enc_serves s' r = true /\ enc_serves (enc_rebuild s') r = true.
+Proof. exact C13.enc_acked_survive_rebuild. Qed.
+Print Assumptions C13_encrypt_acked_survive_rebuild.
+
+Theorem C13_encrypt_index_first_refuted :
+  let '(s', acks) := enc_run false {| e_metas := []; e_index := [] |} [(7, EFailMeta); (7, ENoFail)] in
+  acks = [7] /\ enc_serves s' 7 = true /\ enc_serves (enc_rebuild s') 7 = false.
+Proof. exact C13.enc_index_first_loses. Qed.
+Print Assumptions C13_encrypt_index_first_refuted.
